@@ -1166,10 +1166,32 @@ pub fn oracle_costmodel_ops(rng: &mut Rng, n: usize, tier: &str) -> OracleReport
         let args = trees::from_hex(w[5]).unwrap();
         let mut items = vec![];
         let mut cur = &args;
+        let tags: Vec<char> = w.get(6).map(|t| t.chars().collect()).unwrap_or_default();
+        let mut all_atoms = true;
         while let T::Pair(a, b) = cur {
-            items.push(quote((**a).clone()));
+            all_atoms &= matches!(**a, T::Atom(_));
+            items.push((**a).clone());
             cur = b;
         }
+        // the request's representation tags, rebuilt inside the program: 'E' = substring view of a longer
+        // heap atom (also the empty one), 'H' = concat result
+        let items: Vec<T> = items
+            .into_iter()
+            .enumerate()
+            .map(|(k, it)| {
+                let tag = if all_atoms { tags.get(k).copied().unwrap_or('-') } else { '-' };
+                match (&it, tag) {
+                    (T::Atom(b), 'E') => {
+                        let mut long = vec![0xbb, 0xcc, 0xdd];
+                        long.extend_from_slice(b);
+                        long.extend_from_slice(&[0xaa; 7]);
+                        call(12, vec![quote(atom(&long)), quote(int(3)), quote(int(3 + b.len() as i128))])
+                    }
+                    (T::Atom(b), 'H') if b.len() >= 2 => call(14, vec![quote(atom(&b[..b.len() / 2])), quote(atom(&b[b.len() / 2..]))]),
+                    _ => quote(it),
+                }
+            })
+            .collect();
         let prog = call(opcode, items);
         let env = T::nil();
         let old = run_full("chia", flags, 0, &prog, &env, "");
